@@ -8,12 +8,16 @@ from ..interp import Instance
 from ..vec import El, Vec
 
 PREC = [9, 2, 1, 3, 4]            # MISSING < UNKNOWN < GOOD < SUSPECT < FAIL  (from the property statement)
+from fractions import Fraction as _Fr
 VALUES = [1, 2, 3, 4, 9, 7, 'masked']   # 7 = a value that is not a flag
+# further non-flag values that collide with a flag code under integer truncation / 8-bit wrap-around
+ODD = [_Fr(7, 2), _Fr(9, 2), 260, 265, 0, -1, _Fr(19, 2)]
 
 
 def mkvec(vals):
     cells = [El(X.ANY, True) if v == 'masked' else El(X.num(v), False) for v in vals]
-    return Vec.fresh(cells, kind='ma', dtype='u1', owner='flags')
+    ints = all(v == 'masked' or (isinstance(v, int) and 0 <= v < 256) for v in vals)
+    return Vec.fresh(cells, kind='ma', dtype='u1' if ints else 'f8', owner='flags')
 
 
 def expected(columns):
@@ -57,6 +61,21 @@ def run(ck):
             ok = len(got) == 1 and got[0] == ([str(want)], False)
             ck.ob('C04.table', label, ok, key=f'qartod_compare:table:want={want}',
                   what=f'{label} gives {got}, the property gives {want} (unmasked)')
+    # non-flag values that would turn into flag codes if the inputs were cast to small integers
+    for odd in ODD:
+        for other in (1, 4, 9, 'masked', odd):
+            for combo in ((odd, other), (other, odd), (odd,)):
+                vecs = [mkvec([v]) for v in combo]
+                out = r.run(qc, [vecs])
+                label = f'qartod_compare({[str(v) for v in combo]})'
+                ck.count(1, distinct=('cmp-odd', str(combo)))
+                if out.kind == 'raise':
+                    ck.violate('C04.table', f'qartod_compare:raises:{out.exc.tname}', f'{label} raises {out.exc.tname}{out.exc.args}')
+                    continue
+                want = expected(combo)
+                got = concrete(out.value)
+                ck.ob('C04.table', label, got == [([str(want)], False)], key='qartod_compare:non-flag-value-counted',
+                      what=f'{label} gives {got}, the property gives {want}: values that are not flags must be ignored')
     # position independence / several points / input untouched
     for cols in itertools.islice(itertools.product(itertools.product(VALUES, repeat=2), repeat=2), 0, None, 7):
         # cols = (vector1 values, vector2 values), two positions each
@@ -108,5 +127,16 @@ def run(ck):
         if ok:
             ok = concrete(cl[-1].attrs['results']) == [([str(expected(combo))], False)]
         ck.ob('C04.store', label, ok, key='PandasStore.compute_aggregate', what=f'{label}: the roll-up is not the aggregate of all collected results appended once')
+    # a single collected result, partly not evaluated (masked): the roll-up is MISSING there, never masked
+    for combo in (('masked', 1), (3, 'masked'), ('masked', 'masked'), (4, 1)):
+        inst = Instance(PS)
+        cr = r.interp.instantiate(CR, [], dict(stream_id='s0', package='qartod', test='t0', function=None, results=mkvec(list(combo))), None)
+        inst.attrs['collected_results'] = [cr]
+        out = r.run(r.interp.getattr(inst, 'compute_aggregate', None), [])
+        cl = inst.attrs['collected_results']
+        want = [([str(expected([v]))], False) for v in combo]
+        ok = out.kind == 'return' and len(cl) == 2 and cl[0] is cr and concrete(cl[-1].attrs['results']) == want
+        ck.ob('C04.store', f'compute_aggregate(single result {list(combo)})', ok, key='PandasStore.compute_aggregate:single-result',
+              what=f'compute_aggregate with one collected result {list(combo)}: roll-up {concrete(cl[-1].attrs["results"]) if len(cl) == 2 else "missing"}, expected {want}')
     ck.floor('C04.table', 300)
     ck.floor('C04.store', 20)
